@@ -423,7 +423,13 @@ def check(ctx, case, preempt=None):
                     return
                 # (4) released promptly after the drop / shutdown
                 ev = [t for t in (world.drop_time if world.dropped in ('close', 'reset') else None, out.get('local_time')) if t is not None and t >= t0]
-                if ev and t1 - min(ev) > 3.0 and a in ('ConnectionError',):
+                # (only a caller whose request was queued before the connection went away is "waiting": a request issued when the
+                # connection is already lost first tries to connect, one caller after the other)
+                marks = [m for m in (world.drop_mark if world.dropped in ('close', 'reset') else None, out.get('local_mark')) if m is not None]
+                tid = next(t.ident for t in s.threads if t.name == f'T:caller{i}')
+                queued = next((n for n, (who, tag) in enumerate(s.trace) if who == tid and tag == 'q.put.done'), None)
+                waiting = queued is not None and marks and queued < min(marks)
+                if ev and t1 - min(ev) > 3.0 and a in ('ConnectionError',) and waiting:
                     ctx.finding('waiter-not-released-promptly', sub, f'caller {i}: drop/shutdown at +{min(ev) - t0:.2f}, released at +{elapsed:.2f}')
                     return
                 waiting_at_drop += 1
